@@ -5,7 +5,7 @@ PATCH=$1; shift
 S=/tmp/scratch_try
 mkdir -p $S
 rsync -a --delete --exclude target /repo/ $S/repo/ || exit 2
-rsync -a --delete --exclude 'target*' --exclude replays --exclude evidence /verif/ $S/verif/ || exit 2
+[ -n "$NO_VERIF_SYNC" ] || rsync -a --delete --exclude "target*" --exclude replays --exclude evidence /verif/ $S/verif/ || exit 2
 mkdir -p $S/verif/evidence
 cd $S/repo && git reset -q --hard HEAD
 if ! git apply "$PATCH" 2>/tmp/try_seed_apply.err; then
